@@ -140,3 +140,104 @@ Theorem C05_parse_segment_subset_full_leaf : forall v t e (text : str) reference
   parse_segment t TOLERANT e (leaf_enc_full v TOLERANT e) text reference = Ok s.
 Proof. exact shipped_parse_segment_subset_full. Qed.
 Print Assumptions C05_parse_segment_subset_full_leaf.
+
+(* ============================================================================================ *)
+(* "An element accepted by STRICT construction never draws a validator error other than a missing
+   required child" - SEGMENT LEVEL, for every text, every shipped version, every delimiter set and ANY
+   leaf function.  The unrestricted statement is FALSE of the faithful model and of hl7apy
+   (C05_strict_enforces_refuted: finding F14, and C05_strict_enforces_refuted_zsegment: a new
+   finding); it holds under the side condition `strict_side`:
+     - a segment that is not a Z-segment has no field beyond its table: every child is declared by the
+       segment's structure (an open-ended, varies-last segment admits SEG_k for every k under STRICT;
+       the validator reports "Invalid children detected");
+     - every field of a Z-segment is a Z-field: the segment test is name[0] == 'Z' and len == 3, the
+       field test is ^z[a-z1-9]{2}_\d+$; 'Z0X|a' gives a plain varies field Z0X_1 that the validator
+       does not find in the tables ("Invalid element found").
+   Proofs/StrictEnforces.v: what STRICT construction and STRICT admission guarantee of the tree is
+   what the validator checks besides the minimum cardinalities - datatype = the datatype of the
+   reference (no WrongDatatype), no unknown child below a complex parent (no UnknownElement), every
+   child declared and built under the reference the validator holds against it (no InvalidChildren /
+   InvalidElement; the inline withdrawn-field rows of v2.6-v2.8 have maximum 0, STRICT refuses them),
+   per-name counts within the maximum (no LimitExceeded).  Proofs/StrictEnforcesTables.v: the table
+   premises for all shipped versions (vm_compute) and the witnesses. *)
+From HL7 Require Import Model.Validate Proofs.StrictEnforces Proofs.StrictEnforcesTables.
+
+Theorem C05_strict_enforces_partial : forall v t e leaf (text : str) s e' errs, tables_of v = Some t ->
+  parse_segment t STRICT e leaf text None = Ok s ->
+  strict_side s ->
+  validate_errors t e' s = Ok errs ->
+  Forall is_missing_required errs.
+Proof. exact shipped_strict_enforces. Qed.
+Print Assumptions C05_strict_enforces_partial.
+
+(* with the decidable form of the side condition *)
+Theorem C05_strict_enforces_partial_checked : forall v t e leaf (text : str) s e' errs, tables_of v = Some t ->
+  parse_segment t STRICT e leaf text None = Ok s ->
+  strict_sideb s = true ->
+  validate_errors t e' s = Ok errs ->
+  forall x, In x errs -> exists parent child, x = MissingRequired parent child.
+Proof.
+  intros v t e leaf text s e' errs Ht H Hs Hv x Hx.
+  pose proof (shipped_strict_enforces v t e leaf text s e' errs Ht H (strict_sideb_spec s Hs) Hv) as F.
+  rewrite Forall_forall in F. specialize (F x Hx). destruct x; try contradiction. eauto.
+Qed.
+Print Assumptions C05_strict_enforces_partial_checked.
+
+(* together with C15_validate_segment_total: the report exists and holds nothing but missing
+   required children *)
+From HL7 Require Import Proofs.ValidateTotalTables.
+Theorem C05_strict_then_validate : forall v t e leaf (text : str) s e', tables_of v = Some t ->
+  parse_segment t STRICT e leaf text None = Ok s -> strict_side s ->
+  exists errs, validate_errors t e' s = Ok errs /\ Forall is_missing_required errs.
+Proof.
+  intros v t e leaf text s e' Ht H Hs.
+  destruct (shipped_parse_segment_validates v t STRICT e leaf text s e' Ht H) as [errs Hv].
+  exists errs. split; [exact Hv|]. exact (shipped_strict_enforces v t e leaf text s e' errs Ht H Hs Hv).
+Qed.
+Print Assumptions C05_strict_then_validate.
+
+(* the side condition is EXACT: a STRICT-parsed segment draws only missing-required errors if and only
+   if it satisfies it (an undeclared field draws "Invalid children detected", a non-Z field of a
+   Z-segment draws "Invalid element found") *)
+Theorem C05_strict_side_exact : forall v t e leaf (text : str) s e' errs, tables_of v = Some t ->
+  parse_segment t STRICT e leaf text None = Ok s -> validate_errors t e' s = Ok errs ->
+  (Forall is_missing_required errs <-> strict_sideb s = true).
+Proof. exact shipped_strict_side_exact. Qed.
+Print Assumptions C05_strict_side_exact.
+
+(* F14: without the first side condition the statement is false - v2.5 'QPD|a||q||beyond' is accepted
+   under STRICT and draws "Invalid children detected for <Segment QPD>: ['QPD_5']" (model and hl7apy) *)
+Theorem C05_strict_enforces_refuted :
+  ~ (forall v t e leaf (text : str) s e' errs, tables_of v = Some t ->
+       parse_segment t STRICT e leaf text None = Ok s -> validate_errors t e' s = Ok errs ->
+       Forall is_missing_required errs).
+Proof. exact (strict_refutation "QPD|a||q||beyond" (proj1 strict_witnesses)). Qed.
+Print Assumptions C05_strict_enforces_refuted.
+
+(* ... nor the second: 'Z0X|a' is accepted under STRICT and draws "Invalid element found: <Field Z0X_1
+   (None) of type varies>" (model and hl7apy) although no field is beyond any table *)
+Theorem C05_strict_enforces_refuted_zsegment :
+  ~ (forall v t e leaf (text : str) s e' errs, tables_of v = Some t ->
+       parse_segment t STRICT e leaf text None = Ok s -> seg_is_z s = true ->
+       validate_errors t e' s = Ok errs -> Forall is_missing_required errs).
+Proof.
+  intros H. pose proof (proj1 (proj2 strict_witnesses)) as W. unfold strict_then_validate in W.
+  destruct (parse_segment Gen.Tables_v2_5.tables STRICT default_ec (leaf_enc "2.5" STRICT default_ec) "Z0X|a" None) as [s|x] eqn:P; [|discriminate].
+  destruct (validate_errors Gen.Tables_v2_5.tables default_ec s) as [errs|x] eqn:V; [|discriminate].
+  assert (Z : seg_is_z s = true).
+  { assert (Some (seg_is_z s) = Some true); [|congruence]. revert P. vm_compute. intros P. injection P as <-. reflexivity. }
+  pose proof (only_missingb_spec _ (H "2.5" _ _ _ _ _ _ _ eq_refl P Z V)) as K. rewrite K in W. discriminate.
+Qed.
+Print Assumptions C05_strict_enforces_refuted_zsegment.
+
+(* the side condition is satisfiable, and the witnesses fail it *)
+Example C05_strict_enforces_examples :
+  strict_then_validate Gen.Tables_v2_5.tables "2.5" "QPD|a||q||beyond" = Some (false, false) /\
+  strict_then_validate Gen.Tables_v2_5.tables "2.5" "Z0X|a" = Some (false, false) /\
+  strict_then_validate Gen.Tables_v2_5.tables "2.5" "QPD|a||q" = Some (true, true) /\
+  strict_then_validate Gen.Tables_v2_5.tables "2.5" "ZXX|a|b" = Some (true, true) /\
+  strict_then_validate Gen.Tables_v2_5.tables "2.5" "PID|1||a^^^b&c~d|x|n^m" = Some (true, true) /\
+  strict_then_validate Gen.Tables_v2_5.tables "2.5" "pid|1||a" = Some (true, true) /\
+  strict_then_validate Gen.Tables_v2_5.tables "2.5" "MSH|^~\&|a|b" = Some (true, true) /\
+  strict_then_validate Gen.Tables_v2_5.tables "2.5" "OBX|1|CE|id|s|a^b&c~d" = Some (true, true).
+Proof. exact strict_witnesses. Qed.
